@@ -4,6 +4,7 @@ CONSTANTS
   Slack = 1
   FixAbs = FALSE
   FixZero = FALSE
+  FixInf = FALSE
   MaxNum = 8
-  Variants = {"FloatVsUBig", "FloatVsIBig", "RatioVsUBig", "RatioVsIBig", "RatioVsFBig", "ReprVsRepr", "IntVsPrimFloat", "ReprVsPrimFloat", "RatioVsPrimFloat"}
+  Variants = {"FloatVsUBig", "FloatVsIBig", "RatioVsUBig", "RatioVsIBig", "RatioVsFBig", "ReprVsRepr", "UBigVsPrimFloat", "IBigVsPrimFloat", "ReprVsPrimFloat", "RatioVsPrimFloat"}
 CHECK_DEADLOCK FALSE
